@@ -7,6 +7,7 @@
 mod driver;
 mod gen;
 mod model;
+mod parse_wl;
 mod printer;
 mod replay;
 mod run;
@@ -127,9 +128,55 @@ fn main() {
             std::fs::write(format!("{out}.stats.json"), serde_json::to_string(&stats).unwrap()).expect("write stats");
             eprintln!("tracegen: prop={prop} seed={seed} runs={runs} lines={}", lines.len());
         }
+        "parsegen" => {
+            let prop = get("prop", "C09");
+            let seed: u64 = get("seed", "1").parse().expect("seed");
+            let runs: usize = get("runs", "100").parse().expect("runs");
+            let out = get("out", "/dev/stdout");
+            let lines = parse_wl::parsegen(&prop, seed, runs);
+            let mut f = std::io::BufWriter::new(std::fs::File::create(&out).expect("create output"));
+            let mut distinct = std::collections::HashSet::new();
+            let (mut ok, mut err, mut panics) = (0, 0, 0);
+            let mut samples = vec![];
+            for l in &lines {
+                writeln!(f, "{}", l).unwrap();
+                match l["res"].as_str().unwrap_or("") {
+                    "ok" => ok += 1,
+                    "err" => err += 1,
+                    _ => panics += 1,
+                }
+                if l["cs"].as_array().map(|a| a.len()).unwrap_or(0) > 8 && distinct.insert(l["text"].as_str().unwrap_or("").to_string()) && samples.len() < 3 && l["note"] != "fixed" {
+                    samples.push(serde_json::json!({"text": l["text"], "res": l["res"], "note": l["note"]}));
+                }
+            }
+            f.flush().unwrap();
+            let stats = serde_json::json!({"runs": lines.len(), "accepted": ok, "rejected": err, "panics": panics, "distinct_nontrivial": distinct.len(), "samples": samples});
+            std::fs::write(format!("{out}.stats.json"), stats.to_string()).expect("write stats");
+            eprintln!("parsegen: prop={prop} seed={seed} cases={} ok={ok} err={err} panics={panics}", lines.len());
+        }
+        "corpus" => {
+            let seed: u64 = get("seed", "1").parse().expect("seed");
+            let n: usize = get("n", "30").parse().expect("n");
+            let lines = parse_wl::corpus(seed, n);
+            let mut f = std::io::BufWriter::new(std::fs::File::create(get("out", "/dev/stdout")).expect("create output"));
+            for l in &lines {
+                writeln!(f, "{}", l).unwrap();
+            }
+            f.flush().unwrap();
+        }
+        "tokens" => {
+            // debugging aid: print the crate's token stream for a text given on the command line
+            let text = get("text", "").replace("\\n", "\n").replace("\\t", "\t").replace("\\r", "\r");
+            let skip = get("header", "false") == "true";
+            println!("{:?}", digital_test_runner::verif::tokens(&text, skip));
+        }
         "replay" => {
             let seed: u64 = get("seed", "1").parse().expect("seed");
-            let summary = replay::replay_file(&get("in", "/dev/stdin"), seed);
+            let summary = match get("kind", "interp").as_str() {
+                "lex" => replay::replay_lex_file(&get("in", "/dev/stdin")),
+                "parse" => replay::replay_parse_file(&get("in", "/dev/stdin")),
+                _ => replay::replay_file(&get("in", "/dev/stdin"), seed),
+            };
             std::fs::write(get("out", "/dev/stdout"), serde_json::to_string(&summary).unwrap()).expect("write summary");
             eprintln!("replay: behaviours={} mismatches={}", summary["behaviours"], summary["mismatches"].as_array().map(|a| a.len()).unwrap_or(0));
         }
